@@ -158,3 +158,64 @@ Fixpoint wf (s : sst) : bool :=
   end.
 Definition wf_stmt (st : stmt) : bool := match st with StExpr e | StAssign _ e => wf e end.
 Definition wf_prog (p : prog) : bool := forallb wf_stmt p.
+
+(* ------------------------------------------------------------------ a surface tree for a parse tree
+   (used by the harness as an oracle: when the implementation and the model disagree on a
+   token sequence that the model parses to t, the fully parenthesised text of [unparse t]
+   must still parse to t on the implementation, or the property itself fails there). *)
+Local Open Scope string_scope.
+Definition all_cmp : list cmpop := [CEq; CNeq; CLt; CGt; CLeq; CGeq; CAssign; CIn].
+Definition all_bin : list binop := [BPow; BMul; BDiv; BMod; BAdd; BSub; BPm].
+
+Fixpoint unparse (t : ptree) : sst :=
+  match t with
+  | PNum n => SNum n
+  | PStr s => SStr s
+  | PInst s => SInst s
+  | PVar x => SVar x
+  | PCall name args kw =>
+      let dflt := SCall name (map unparse args) (map (fun p => (fst p, unparse (snd p))) kw) in
+      match kw with
+      | _ :: _ => dflt
+      | [] =>
+          match args with
+          | [x] =>
+              if String.eqb name "-" then SSign true (unparse x)
+              else if String.eqb name "+" then SSign false (unparse x)
+              else if String.eqb name "!" then SFact (unparse x)
+              else dflt
+          | [x; y] =>
+              match find (fun o => String.eqb (bin_name o) name) all_bin with
+              | Some o => SBin o (unparse x) (unparse y)
+              | None =>
+                  if String.eqb name "range" then SRange (unparse x) (unparse y)
+                  else if String.eqb name "interval" then SInterval (unparse x) (unparse y)
+                  else match find (fun o => String.eqb (cmp_name o) name) all_cmp with
+                       | Some o => SCmp1 o (unparse x) (unparse y)
+                       | None => dflt
+                       end
+              end
+          | [x; y; z] =>
+              match find (fun o => String.eqb (cmp_name (fst o) ++ "_" ++ cmp_name (snd o)) name)
+                         (list_prod all_cmp all_cmp) with
+              | Some o => SCmp2 (fst o) (snd o) (unparse x) (unparse y) (unparse z)
+              | None => dflt
+              end
+          | _ => dflt
+          end
+      end
+  | PAssign x e => SCmp1 CAssign (SVar x) (unparse e)     (* never inside an expression *)
+  | PStmts l => SArr (map unparse l)                       (* never inside an expression *)
+  | PQty e u => SQty (unparse e) u
+  | PConv e u => SConv (unparse e) u
+  | PArr l => SArr (map unparse l)
+  | PCompr b gens conds =>
+      SCompr (unparse b) (map (fun p => (Some (fst p), unparse (snd p))) gens
+                          ++ map (fun c => (None, unparse c)) conds)
+  end.
+
+Definition unparse_prog (t : ptree) : prog :=
+  match t with
+  | PStmts l => map (fun s => match s with PAssign x e => StAssign x (unparse e) | e => StExpr (unparse e) end) l
+  | e => [StExpr (unparse e)]
+  end.
